@@ -45,6 +45,10 @@ class _Canon(ast.NodeTransformer):
         self.generic_visit(node)
         if norm_text(node.func) == "torch.as_tensor" and len(node.args) == 1:
             return node.args[0]
+        # divmod(a, b)[0] / [1]  ==  a // b,  a % b
+        if is_component(node) and isinstance(node.args[0], ast.Call) and norm_text(node.args[0].func) == "divmod" and len(node.args[0].args) == 2 and node.args[1].value in (0, 1):
+            a, b = node.args[0].args
+            return ast.BinOp(left=a, op=ast.FloorDiv() if node.args[1].value == 0 else ast.Mod(), right=b)
         return node
 
 
@@ -675,7 +679,9 @@ def batch_rule(ctx):
         # remainder: present on the path where leftover > 0, absent otherwise
         xatoms = set()
         for et, raw, pol in path.conds:
-            xatoms |= cond_atoms(et, pol)
+            from ..symexp import clone as _clone
+
+            xatoms |= cond_atoms(_Canon().visit(_clone(et)), pol)
         has_rem_cond = any(a in ("num_samples % batch_size > 0", "0 < num_samples % batch_size", "num_samples % batch_size != 0", "0 != num_samples % batch_size", "num_samples % batch_size") for a in xatoms)
         no_rem_cond = any(a in ("num_samples % batch_size <= 0", "0 >= num_samples % batch_size", "num_samples % batch_size == 0", "0 == num_samples % batch_size", "not(num_samples % batch_size)") for a in xatoms)
         if appended:
